@@ -49,8 +49,12 @@ def absorb(ctx, summ, how):
     ctx.nontrivial_extra += summ["distinct"]
     for s in (summ.get("samples") or []):
         ctx.sample(s)
-    if summ.get("unreproduced", 0) > 0:
+    # disagreements that did not reproduce when re-run alone are not counted; if nothing but such
+    # disagreements was seen, the run has no verdict (reproduced ones stand on their own)
+    if summ.get("unreproduced", 0) > 0 and not (summ.get("by_sig") or {}):
         raise core.Broken("%d disagreements did not reproduce when re-run alone" % summ["unreproduced"])
+    if summ.get("unreproduced", 0) > 0:
+        ctx.notes.append("%d further disagreements did not reproduce when re-run alone" % summ["unreproduced"])
     shown = {}
     for dg in (summ.get("disagreements") or []):
         shown.setdefault(dg["sig"], dg)
